@@ -145,7 +145,8 @@ func genMutFree(t *rapid.T, label string) Mut {
 	m.N = rapid.IntRange(0, 200).Draw(t, label+"n")
 	m.Ch = string(cookieAlphabet[rapid.IntRange(0, len(cookieAlphabet)-1).Draw(t, label+"ch")])
 	if m.Kind == "mint" {
-		m.Keys = pick(t, label+"keys", "A", "B", "B", "Bhash", "Bblock")
+		m.Keys = pick(t, label+"keys", "A", "A", "F0", "F1", "F1", "F2", "F2", "F3", "F3", "B", "Bhash", "Bblock")
+		m.By = pick(t, label+"by", "lib", "model")
 		m.Name = pick(t, label+"name", "state", "pkce", "other", "")
 		if m.Keys == "A" && m.Name == m.Cookie {
 			// a cookie under the RP's own keys and the right name is something only the RP can produce
@@ -313,7 +314,7 @@ func genKeys(t *rapid.T, c *Case) {
 	}
 }
 
-func genCallback(t *rapid.T, label string, browser int, latest map[int]int, nAttempts int, pkce bool, consumed bool) Op {
+func genCallback(t *rapid.T, label string, browser int, latest map[int]int, nAttempts int, pkce bool, consumed bool, noFlow bool) Op {
 	o := Op{Kind: "callback", Browser: browser, StateQ: "attempt", CodeQ: "attempt", Method: "GET"}
 	last := 0
 	if v, ok := latest[browser]; ok {
@@ -328,6 +329,10 @@ func genCallback(t *rapid.T, label string, browser int, latest map[int]int, nAtt
 	o.Attempt = last
 	o.Tmpl = pick(t, label+"tmpl", "match", "match", "match", "earlier", "earlier", "restore", "wrongq", "wrongq", "tamper", "tamper",
 		"mint", "mint", "cross", "cross", "drop", "error", "free", "otherbrowser")
+	if noFlow {
+		// no cookie of this RP exists: only what others minted can be in the jar
+		o.Tmpl = pick(t, label+"tmpl-noflow", "mint", "mint", "mint", "mint", "free", "free", "match", "error")
+	}
 	// the cookie the manipulation aims at: with PKCE the pkce cookie as often as the state cookie
 	target := "state"
 	if pkce && rapid.Bool().Draw(t, label+"target-pkce") {
@@ -361,19 +366,33 @@ func genCallback(t *rapid.T, label string, browser int, latest map[int]int, nAtt
 	case "tamper":
 		o.Muts = []Mut{{Kind: pick(t, label+"tk", "flip", "flip", "truncate", "append"), Cookie: target, N: rapid.IntRange(0, 200).Draw(t, label+"n"), Ch: chr()}}
 	case "mint":
-		mk := pick(t, label+"mk", "otherkeys", "otherkeys", "othername", "plain")
-		if mk != "plain" {
+		mk := pick(t, label+"mk", "otherkeys", "otherkeys", "otherkeys", "othername", "plain", "replica")
+		if mk != "plain" && mk != "replica" {
 			mk = target + "-" + mk
 		}
+		// the other deployment: one of the case's foreign handlers (mostly) or the fixed 32-byte keys; its cookie is minted
+		// by a handler of the library built with those keys or by the model codec
+		okeys := pick(t, label+"keys", "F1", "F1", "F2", "F2", "F3", "F3", "B", "Bhash", "Bblock")
+		by := pick(t, label+"by", "lib", "lib", "model")
 		switch mk {
 		case "state-otherkeys":
-			o.Muts = []Mut{{Kind: "mint", Cookie: "state", Keys: pick(t, label+"keys", "B", "Bhash", "Bblock"), Name: "state", Value: "query"}}
+			o.Muts = []Mut{{Kind: "mint", Cookie: "state", Keys: okeys, By: by, Name: "state", Value: "query"}}
+			if pkce && rapid.Bool().Draw(t, label+"both") {
+				// the whole flow was started at the other deployment: both cookies are its
+				o.Muts = append(o.Muts, Mut{Kind: "mint", Cookie: "pkce", Keys: okeys, By: by, Name: "pkce", Value: "verifier"})
+			}
 		case "state-othername":
-			o.Muts = []Mut{{Kind: "mint", Cookie: "state", Keys: "A", Name: pick(t, label+"name", "pkce", "other", ""), Value: "query"}}
+			o.Muts = []Mut{{Kind: "mint", Cookie: "state", Keys: pick(t, label+"nkeys", "A", "A", "F0"), By: by, Name: pick(t, label+"name", "pkce", "other", ""), Value: "query"}}
 		case "pkce-otherkeys":
-			o.Muts = []Mut{{Kind: "mint", Cookie: "pkce", Keys: pick(t, label+"keys", "B", "Bhash", "Bblock"), Name: "pkce", Value: "verifier"}}
+			o.Muts = []Mut{{Kind: "mint", Cookie: "pkce", Keys: okeys, By: by, Name: "pkce", Value: "verifier"}}
 		case "pkce-othername":
-			o.Muts = []Mut{{Kind: "mint", Cookie: "pkce", Keys: "A", Name: pick(t, label+"name", "state", "other", ""), Value: "verifier"}}
+			o.Muts = []Mut{{Kind: "mint", Cookie: "pkce", Keys: pick(t, label+"nkeys", "A", "A", "F0"), By: by, Name: pick(t, label+"name", "state", "other", ""), Value: "verifier"}}
+		case "replica":
+			// another replica of the RP (a handler built from byte-equal keys) re-issues the cookies of the flow
+			o.Muts = []Mut{{Kind: "mint", Cookie: "state", Keys: "F0", By: by, Name: "state", Value: "query"}}
+			if pkce {
+				o.Muts = append(o.Muts, Mut{Kind: "mint", Cookie: "pkce", Keys: "F0", By: by, Name: "pkce", Value: "verifier"})
+			}
 		default:
 			o.Muts = []Mut{{Kind: "plain", Cookie: target, Value: pick(t, label+"pv", "query", "verifier")}}
 		}
@@ -439,6 +458,7 @@ func genCase(t *rapid.T) Case {
 	}
 	c.AuthStyle = rapid.SampledFrom([]int{0, 0, 1, 2}).Draw(t, "authstyle")
 	c.Encrypt = rapid.IntRange(0, 3).Draw(t, "encrypt") > 0
+	genKeys(t, &c)
 	c.Unsecure = rapid.IntRange(0, 3).Draw(t, "unsecure") == 0
 	c.MaxAge = rapid.SampledFrom([]int{0, 0, 600}).Draw(t, "maxage")
 	c.Scopes = []string{"openid"}
@@ -452,9 +472,14 @@ func genCase(t *rapid.T) Case {
 
 	nLogins := rapid.IntRange(1, vkit.Scale(4, 5)).Draw(t, "nlogins")
 	nCallbacks := rapid.IntRange(1, vkit.Scale(4, 6)).Draw(t, "ncallbacks")
+	// one history in ten: the browser never started a flow at this RP; whatever its jar holds comes from elsewhere
+	noFlow := rapid.IntRange(0, 9).Draw(t, "no-flow") == 0
 	// interleaving: the first op is a login; the rest is a generated merge of the remaining logins and the callbacks
 	kinds := []string{"login"}
 	l, cb := nLogins-1, nCallbacks
+	if noFlow {
+		kinds, l = nil, 0
+	}
 	for l+cb > 0 {
 		if l > 0 && (cb == 0 || rapid.IntRange(0, l+cb-1).Draw(t, fmt.Sprintf("merge%d", len(kinds))) < l) {
 			kinds = append(kinds, "login")
@@ -485,7 +510,7 @@ func genCase(t *rapid.T) Case {
 			c.Ops = append(c.Ops, o)
 			continue
 		}
-		o := genCallback(t, label, b, latest, nAttempts, c.PKCE, consumed[b])
+		o := genCallback(t, label, b, latest, nAttempts, c.PKCE, consumed[b], noFlow)
 		if o.Tmpl == "otherbrowser" && !twoBrowsers {
 			o.Tmpl = "earlier"
 		}
@@ -649,10 +674,13 @@ type world struct {
 	maxAge         int64
 	jars           map[int]*jar
 	inner          map[string]string // raw cookie value -> the value sealed inside it (whoever minted it), as far as the harness knows
+	foreign        []ckeys           // the other deployments' keys (Case.Foreign, decoded; unusable pairs are nil entries)
+	prov           map[string]string // raw cookie value -> who minted it (harness bookkeeping for the class names): other-keys | other-name | replica
 	att            []*attempt
 	hits           handlerHits
 	redirect       string
 	mintSeq        int
+	keyNotes       []string // description of the foreign keys used by the manipulations of the current callback
 	info           []string
 	classes        []string
 	asserted, grey int
@@ -668,6 +696,89 @@ func (w *world) jar(b int) *jar {
 	return j
 }
 
+// keys resolves a key name of a Mut: A = the RP's, F<i> = the case's i-th foreign handler, otherwise the fixed 32-byte pairs.
+func (w *world) keys(name string) ckeys {
+	if name == "A" {
+		return w.keysA
+	}
+	if strings.HasPrefix(name, "F") && len(w.foreign) > 0 {
+		if i, err := strconv.Atoi(name[1:]); err == nil && i >= 0 {
+			if k := w.foreign[i%len(w.foreign)]; usableKeys(k) {
+				return k
+			}
+		}
+	}
+	if !strings.HasPrefix(name, "B") {
+		name = "B"
+	}
+	return keysFor(name, w.keysA.Block != nil)
+}
+
+func (kp KeyPair) decode() (ckeys, bool) {
+	h, err1 := hex.DecodeString(kp.Hash)
+	e, err2 := hex.DecodeString(kp.Enc)
+	k := ckeys{Hash: h}
+	if len(e) > 0 {
+		k.Block = e
+	}
+	return k, err1 == nil && err2 == nil && usableKeys(k) && len(h) <= 1024
+}
+
+func lenClass(n int) string {
+	switch {
+	case n < 16:
+		return "1-15"
+	case n < 32:
+		return "16-31"
+	case n == 32:
+		return "32"
+	case n < 64:
+		return "33-63"
+	case n == 64:
+		return "64"
+	}
+	return "65+"
+}
+
+func commonPrefix(a, b []byte) int {
+	n := 0
+	for n < len(a) && n < len(b) && a[n] == b[n] {
+		n++
+	}
+	return n
+}
+
+// relClass names the relation of keys k to the RP's keys from the bytes: for the hash key the length class of the common
+// prefix, for the encryption key equal / absent on one side / common prefix of >= 16 bytes / different.
+func (w *world) relClass(k ckeys) (hash, enc string) {
+	a := w.keysA
+	switch cp := commonPrefix(a.Hash, k.Hash); {
+	case bytes.Equal(a.Hash, k.Hash):
+		hash = "equal"
+	case cp >= 64:
+		hash = "common-prefix-64+"
+	case cp >= 32:
+		hash = "common-prefix-32-63"
+	case cp >= 16:
+		hash = "common-prefix-16-31"
+	case cp >= 1:
+		hash = "common-prefix-1-15"
+	default:
+		hash = "unrelated"
+	}
+	switch {
+	case bytes.Equal(a.Block, k.Block) && (a.Block == nil) == (k.Block == nil):
+		enc = "equal"
+	case a.Block == nil || k.Block == nil:
+		enc = "one-side-only"
+	case commonPrefix(a.Block, k.Block) >= 16:
+		enc = "common-prefix-16+"
+	default:
+		enc = "different"
+	}
+	return hash, enc
+}
+
 func (w *world) decode(name, raw string) (string, bool, string) {
 	return modelDecode(w.keysA, name, raw, time.Now(), w.maxAge)
 }
@@ -681,7 +792,26 @@ func run(c Case) (res *vkit.Result) {
 		}
 	}()
 	t0 := time.Now()
-	w := &world{c: c, res: res, jars: map[int]*jar{}, inner: map[string]string{}, keysA: keysFor("A", c.Encrypt)}
+	w := &world{c: c, res: res, jars: map[int]*jar{}, inner: map[string]string{}, prov: map[string]string{}, keysA: keysFor("A", c.Encrypt)}
+	if c.KeysA != nil {
+		k, ok := c.KeysA.decode()
+		if !ok {
+			// outside the domain: a handler with such keys cannot issue a single cookie (empty hash key, AES key not 16/24/32 bytes)
+			res.Grey = true
+			res.Label("excluded:rp-keys-unusable")
+			return res
+		}
+		w.keysA = k
+	}
+	c.Encrypt = w.keysA.Block != nil
+	w.c.Encrypt = c.Encrypt
+	for _, kp := range c.Foreign {
+		k, ok := kp.decode()
+		if !ok {
+			k = ckeys{}
+		}
+		w.foreign = append(w.foreign, k)
+	}
 	w.maxAge = 86400 * 30
 	if c.MaxAge > 0 {
 		w.maxAge = int64(c.MaxAge)
@@ -757,14 +887,30 @@ func run(c Case) (res *vkit.Result) {
 		}
 	}
 
+	// report first what does not rest on the model reading the RP's OWN cookies (jar contents the harness produced itself),
+	// last the disagreements between the model codec and the cookies the RP issued
+	rank := func(fp string) int {
+		switch {
+		case strings.HasSuffix(fp, ":cookie-under-other-keys") || strings.HasSuffix(fp, ":cookie-for-other-name") || strings.HasSuffix(fp, ":no-cookie"):
+			return 0
+		case strings.HasPrefix(fp, "C17:login-cookie:"):
+			return 2
+		}
+		return 1
+	}
+	sort.SliceStable(res.Viol, func(a, b int) bool { return rank(res.Viol[a].FP) < rank(res.Viol[b].FP) })
+	if len(w.att) == 0 && c.Conc == nil {
+		res.Label("history:no-flow-started")
+	}
 	elapsed := time.Since(t0)
 	res.Label("router:"+c.Router, fmt.Sprintf("pkce:%v", c.PKCE), fmt.Sprintf("jwt-profile:%v", c.JWTProfile), "client:"+c.AuthMethod)
+	res.Label("rp-keys:hash-len:"+lenClass(len(w.keysA.Hash)), fmt.Sprintf("rp-keys:enc-len:%d", len(w.keysA.Block)))
 	if elapsed > 20*time.Second {
 		res.Label("slow-case")
 	}
 	res.Grey = w.asserted == 0
 	res.NonTrivial = w.nontrivial
-	res.Key = fmt.Sprintf("%s|pkce=%v|jwt=%v|%s|style=%d|enc=%v|h=%v|%s", c.Router, c.PKCE, c.JWTProfile, c.AuthMethod, c.AuthStyle, c.Encrypt, c.CustomHandlers, strings.Join(w.classes, ","))
+	res.Key = fmt.Sprintf("%s|pkce=%v|jwt=%v|%s|style=%d|keys=%s/%d|h=%v|%s", c.Router, c.PKCE, c.JWTProfile, c.AuthMethod, c.AuthStyle, lenClass(len(w.keysA.Hash)), len(w.keysA.Block), c.CustomHandlers, strings.Join(w.classes, ","))
 	res.Info = w.info
 	return res
 }
@@ -1089,10 +1235,44 @@ func (w *world) applyMut(j *jar, m Mut, browser int, q string, ref *attempt) str
 		}
 		val := resolve()
 		w.mintSeq++
-		raw := modelEncode(keysFor(keys, w.c.Encrypt), name, val, time.Now().Unix(), fmt.Sprintf("%d", w.mintSeq))
+		k := w.keys(keys)
+		raw, by := "", "model"
+		if m.By == "lib" {
+			// what a cookie handler of the library configured with those keys hands out (falls back to the model codec
+			// where such a handler cannot: over-long value, cookie name net/http refuses)
+			if r, ok := libMint(k, name, val); ok {
+				raw, by = r, "lib"
+			}
+		}
+		if raw == "" {
+			raw = modelEncode(k, name, val, time.Now().Unix(), fmt.Sprintf("%d", w.mintSeq))
+		}
 		j.v[ck] = raw
 		w.inner[raw] = val
-		return "mint:" + ck + ":keys" + keys + ":name-" + map[bool]string{true: "same", false: "other"}[name == ck]
+		hrel, erel := w.relClass(k)
+		who := "keys" + keys
+		switch {
+		case hrel == "equal" && erel == "equal" && keys != "A":
+			who = "keys-replica"
+			w.prov[raw] = "replica"
+			if name != ck {
+				w.prov[raw] = "other-name"
+			}
+		case keys == "A":
+			w.prov[raw] = "other-name"
+		default:
+			w.prov[raw] = "other-keys"
+			if strings.HasPrefix(keys, "F") {
+				who = "keysF"
+			}
+			w.res.Label("foreign-keys:hash-"+hrel, "foreign-keys:enc-"+erel, "foreign-keys:hash-"+hrel+"/enc-"+erel)
+			if len(w.keysA.Hash) > 64 && len(k.Hash) > 64 {
+				w.res.Label("foreign-keys:both-hash-keys-longer-than-64")
+			}
+			w.keyNotes = append(w.keyNotes, fmt.Sprintf("%s cookie minted by %s under keys %s (hash key %d bytes, first %d bytes shared with the RP's %d-byte hash key; encryption key %d bytes, %s)",
+				ck, by, keys, len(k.Hash), commonPrefix(w.keysA.Hash, k.Hash), len(w.keysA.Hash), len(k.Block), erel))
+		}
+		return "mint:" + ck + ":" + who + ":name-" + map[bool]string{true: "same", false: "other"}[name == ck] + ":by-" + by
 	case "plain":
 		val := resolve()
 		if !cookieSafe(val) {
@@ -1167,6 +1347,7 @@ func (w *world) callback(i int, o Op) {
 	}
 
 	var mutLabels []string
+	w.keyNotes = nil
 	for _, m := range o.Muts {
 		mutLabels = append(mutLabels, w.applyMut(j, m, o.Browser, q, ref))
 	}
@@ -1213,12 +1394,22 @@ func (w *world) callback(i int, o Op) {
 			}
 		}
 		if rejectReason != "minted-for-other-name" {
-			for _, kn := range []string{"B", "Bhash", "Bblock"} {
+			others := []ckeys{w.keys("B"), w.keys("Bhash"), w.keys("Bblock")}
+			for _, k := range w.foreign {
+				if usableKeys(k) {
+					others = append(others, k)
+				}
+			}
+			for _, k := range others {
 				for _, name := range []string{"state", "pkce"} {
-					if _, ok, _ := modelDecode(keysFor(kn, w.c.Encrypt), name, rawState, time.Now(), w.maxAge); ok {
+					if _, ok, _ := modelDecode(k, name, rawState, time.Now(), w.maxAge); ok {
 						rejectReason = "minted-under-other-keys"
 					}
 				}
+			}
+			// the harness put this very value into the jar as the product of another deployment's handler
+			if w.prov[rawState] == "other-keys" {
+				rejectReason = "minted-under-other-keys"
 			}
 		}
 	case sDec != q:
@@ -1306,6 +1497,9 @@ func (w *world) callback(i int, o Op) {
 	// ---- judge ---------------------------------------------------------------------------------------------
 	desc := fmt.Sprintf("callback op %d (browser %d, %s state=%q code=%q error=%q; jar state cookie: %s, pkce cookie: %s; muts %v)", i, o.Browser, o.Method, clip(q), clip(code), o.ErrorQ,
 		describeCookie(haveState, sOK, sDec, sWhy), describeCookie(havePKCE, pOK, pDec, pWhy), mutLabels)
+	if len(w.keyNotes) > 0 {
+		desc += " [" + strings.Join(w.keyNotes, "; ") + "]"
+	}
 	outcome := fmt.Sprintf("status=%d callback=%d unauthorized=%d error-handler=%d provider-requests=%d token-requests=%d", resp.Status, w.hits.callback, w.hits.unauthorized, w.hits.errHandler, len(during), len(tokenReqs))
 	class := ""
 	switch {
@@ -1369,6 +1563,9 @@ func (w *world) callback(i int, o Op) {
 			if codeOf != w.latestIn(o.Browser) || len(o.Muts) > 0 {
 				class = "must-accept:not-the-latest-attempt-or-restored"
 				w.nontrivial = true
+			}
+			if w.prov[rawState] == "replica" || (havePKCE && w.prov[rawPKCE] == "replica") {
+				class = "must-accept:cookie-of-a-replica-with-equal-keys"
 			}
 			w.asserted++
 			switch {
